@@ -316,7 +316,8 @@ func verifH_C05_query3() { verifC05Query(3, 3) }
 func verifC05Header(maxItems, leafMax int) {
 	explode := verifChoose("explode", 2) == 1
 	shape, texts, keys, types := verifShape(maxItems, leafMax, verifDelims("simple"))
-	name := "X-P"
+	// header names are case-insensitive: the document may spell the name in any case
+	name := []string{"X-P", "x-p", "X-p"}[verifChoose("spelling", 3)]
 	raw := verifSerPath("simple", explode, name, shape, texts, keys)
 	param := &openapi3.Parameter{Name: name, In: "header", Explode: &explode, Schema: verifParamSchema(shape, keys, types)}
 	input := &RequestValidationInput{Request: &http.Request{Header: http.Header{"X-P": []string{raw}}, URL: &url.URL{}}}
@@ -325,7 +326,7 @@ func verifC05Header(maxItems, leafMax int) {
 	verifReach("end")
 }
 
-//verif:harness id=C05 tier=quick,thorough witness=end bounds="header parameters: style simple x explode x shape (primitive, array of 1-2, object of 1-2 properties) x leaf type x every printable-ASCII leaf text of 1-2 bytes without ',' '='; header given as http.Header (no wire parsing)"
+//verif:harness id=C05 tier=quick,thorough witness=end bounds="header parameters: style simple x explode x shape (primitive, array of 1-2, object of 1-2 properties) x leaf type x every printable-ASCII leaf text of 1-2 bytes without ',' '='; parameter name spelled X-P / x-p / X-p in the document; header given as http.Header (no wire parsing)"
 func verifH_C05_header() { verifC05Header(2, 2) }
 
 //verif:harness id=C05 tier=quick,thorough witness=end bounds="presence: path/query/header parameter absent, present-empty or present (integer leaf text of 1-2 bytes) x required x ValidateParameter: absent+required => ErrInvalidRequired, absent+optional => nil, present => verdict equals VisitJSON of the decoded value (schema integer with symbolic minimum)"
